@@ -1,25 +1,158 @@
-"""Translator: regenerates lean/PyamgV/Generated/*.lean from /repo's working tree on every run.
-(Files are rewritten only when their content changes, so an unchanged tree keeps `lake build` a no-op.)"""
+"""Translator (secondary tie, DESIGN.md section 1): regenerates lean/PyamgV/Generated/Facts.lean from
+/repo's working tree on every run.  It extracts facts the hand-written models rely on:
+
+* the native kernel inventory and signatures (name, parameter list with element type, const-ness and
+  array/scalar kind) parsed from pyamg/amg_core/*.h -- one table per header;
+* the decision tables of pyamg/relaxation/smoothing.py (SYMMETRIC_RELAXATION, KRYLOV_RELAXATION,
+  DEFAULT_SWEEP, DEFAULT_NITER) and the smoother registry (names of the `setup_*` functions), read from
+  the AST of the working-tree file;
+* keyword defaults of MultilevelSolver.solve / aspreconditioner / coarse_grid_solver and of every
+  pyamg.krylov solver (AST), as (name, default-source) pairs.
+
+`Model/Facts.lean` holds the same tables as the models assume them (pinned, committed; written with
+`translate.py --pin`).  `Props/Cxx.lean` proves `Facts.t = Generated.t` by `decide`, so a silently
+changed table, default or signature breaks a proof obligation of exactly the properties that depend
+on it, without anything being executed.  Files are rewritten only when their content changes.
+"""
 import ast
 import os
 import re
+import sys
 from pathlib import Path
 
 VERIF = Path(__file__).resolve().parent.parent
 REPO = Path(os.environ.get('VERIF_REPO', '/repo'))
 GEN = VERIF / 'lean' / 'PyamgV' / 'Generated'
+PIN = VERIF / 'lean' / 'PyamgV' / 'Model' / 'Facts.lean'
+
+HEADERS = ['relaxation', 'ruge_stuben', 'smoothed_aggregation', 'graph', 'air', 'linalg',
+           'evolution_strength', 'krylov']
+KRYLOV = ['_cg', '_cr', '_cgne', '_cgnr', '_bicgstab', '_gmres', '_gmres_mgs', '_gmres_householder',
+          '_fgmres', '_minimal_residual', '_steepest_descent']
 
 
-def _write(name, text):
-    GEN.mkdir(parents=True, exist_ok=True)
-    p = GEN / name
+def lstr(s):
+    s = str(s)
+    return '"' + s.replace('\\', '\\\\').replace('"', '\\"') + '"'
+
+
+def llist(xs, f=lstr):
+    return '[' + ', '.join(f(x) for x in xs) + ']'
+
+
+def kernel_sigs(header):
+    """[(name, [normalised parameter declarations])] for every function template in the header"""
+    src = (REPO / 'pyamg' / 'amg_core' / f'{header}.h').read_text()
+    src = re.sub(r'/\*.*?\*/', '', src, flags=re.S)
+    src = re.sub(r'//[^\n]*', '', src)
+    out = []
+    for m in re.finditer(r'template\s*<([^>]*)>\s*(?:inline\s+)?([\w:<> ]+?)\s+(\w+)\s*\(([^)]*)\)\s*\{', src, flags=re.S):
+        ret, name, params = m.group(2).strip(), m.group(3), m.group(4)
+        ps = [re.sub(r'\s+', ' ', p.strip()) for p in params.split(',') if p.strip()]
+        out.append((name, [ret] + ps))
+    return out
+
+
+def _module(path):
+    return ast.parse((REPO / path).read_text())
+
+
+def smoothing_tables():
+    mod = _module('pyamg/relaxation/smoothing.py')
+    t = {}
+    for node in mod.body:
+        if isinstance(node, ast.Assign) and len(node.targets) == 1 and isinstance(node.targets[0], ast.Name):
+            nm = node.targets[0].id
+            if nm in ('SYMMETRIC_RELAXATION', 'KRYLOV_RELAXATION', 'DEFAULT_SWEEP', 'DEFAULT_NITER'):
+                t[nm] = ast.literal_eval(node.value)
+    reg = sorted(n.name[len('setup_'):] for n in ast.walk(mod) if isinstance(n, ast.FunctionDef) and n.name.startswith('setup_'))
+    t['REGISTRY'] = reg
+    return t
+
+
+def fn_defaults(path, qualname):
+    """[(argname, default source)] of a function / method"""
+    mod = _module(path)
+    parts = qualname.split('.')
+    body = mod.body
+    node = None
+    for p in parts:
+        node = next((n for n in body if isinstance(n, (ast.FunctionDef, ast.ClassDef)) and n.name == p), None)
+        if node is None:
+            return [('<missing>', qualname)]
+        body = node.body
+    a = node.args
+    names = [x.arg for x in a.args]
+    defaults = [None] * (len(names) - len(a.defaults)) + list(a.defaults)
+    out = [(n, '' if d is None else ast.unparse(d)) for n, d in zip(names, defaults)]
+    out += [(x.arg, '' if d is None else ast.unparse(d)) for x, d in zip(a.kwonlyargs, a.kw_defaults)]
+    return out
+
+
+def facts():
+    f = {}
+    for h in HEADERS:
+        f[f'kernels_{h}'] = ('sig', kernel_sigs(h))
+    st = smoothing_tables()
+    f['symmetricRelaxation'] = ('strs', list(st.get('SYMMETRIC_RELAXATION', [])))
+    f['krylovRelaxation'] = ('strs', list(st.get('KRYLOV_RELAXATION', [])))
+    f['defaultSweep'] = ('str', str(st.get('DEFAULT_SWEEP')))
+    f['defaultNiter'] = ('nat', int(st.get('DEFAULT_NITER', 0)))
+    f['smootherRegistry'] = ('strs', st['REGISTRY'])
+    f['solveDefaults'] = ('pairs', fn_defaults('pyamg/multilevel.py', 'MultilevelSolver.solve'))
+    f['aspreconditionerDefaults'] = ('pairs', fn_defaults('pyamg/multilevel.py', 'MultilevelSolver.aspreconditioner'))
+    f['coarseGridSolverDefaults'] = ('pairs', fn_defaults('pyamg/multilevel.py', 'coarse_grid_solver'))
+    f['blackboxSolveDefaults'] = ('pairs', fn_defaults('pyamg/blackbox.py', 'solve'))
+    kd = []
+    for k in KRYLOV:
+        name = k[1:]
+        for a, d in fn_defaults(f'pyamg/krylov/{k}.py', name):
+            kd.append((f'{name}.{a}', d))
+    f['krylovDefaults'] = ('pairs', kd)
+    return f
+
+
+def render(ns, f, doc):
+    lines = [f'/-! {doc} -/', f'namespace PyamgV.{ns}', '']
+    for name, (kind, val) in f.items():
+        if kind == 'sig':
+            lines.append(f'def {name} : List (String × List String) := [')
+            lines.append(',\n'.join(f'  ({lstr(n)}, {llist(ps)})' for n, ps in val))
+            lines.append(']')
+        elif kind == 'strs':
+            lines.append(f'def {name} : List String := {llist(val)}')
+        elif kind == 'str':
+            lines.append(f'def {name} : String := {lstr(val)}')
+        elif kind == 'nat':
+            lines.append(f'def {name} : Nat := {val}')
+        elif kind == 'pairs':
+            lines.append(f'def {name} : List (String × String) := [')
+            lines.append(',\n'.join(f'  ({lstr(a)}, {lstr(b)})' for a, b in val))
+            lines.append(']')
+        lines.append('')
+    lines.append(f'end PyamgV.{ns}')
+    return '\n'.join(lines) + '\n'
+
+
+def _write(p, text):
+    p.parent.mkdir(parents=True, exist_ok=True)
     if not p.exists() or p.read_text() != text:
         p.write_text(text)
 
 
 def regenerate():
-    _write('Stub.lean', '/-! generated -/\nnamespace PyamgV.Generated\nend PyamgV.Generated\n')
+    f = facts()
+    _write(GEN / 'Facts.lean', render('Generated', f, f'GENERATED by harness/translate.py from the working tree of the repository on every run. Do not edit.'))
+
+
+def pin():
+    f = facts()
+    _write(PIN, render('Facts', f, 'The interface facts the hand-written models assume (kernel signatures, decision tables, keyword '
+                       'defaults), pinned by `harness/translate.py --pin`; `Props/Cxx.lean` proves them equal to the tables '
+                       'regenerated from the working tree on every run.'))
 
 
 if __name__ == '__main__':
+    if '--pin' in sys.argv:
+        pin()
     regenerate()
